@@ -33,6 +33,9 @@ CHECKS = {
  'C07': ('mutation-based property testing against an independent RFC 9535 recogniser (differential accept/reject oracle): token-level and character-level near misses, AST-level ill-typed calls, a targeted bounded box, token soup',
          'Valid sentences are mutated by 1-3 token or character edits, ill-typed/mis-aritied function calls are built on the AST and embedded in valid queries, and a targeted box places every forbidden integer form, blank, string form and filter form into every position that takes one; whatever the recogniser classifies Invalid must be rejected by parse_json_path and by JsonPath::query. Strings the recogniser does not judge (extension function names, literals beyond I-JSON, blanks inside singular-query brackets) are counted and skipped. Exploration only (the targeted box is enumerated completely).',
          'Trusted: the recogniser (hand-written from RFC 9535 Appendix A, 2.1, 2.4; self-tested; cross-validated against the C06 generators on every run of C06).', 'DESIGN.md section 4 C07'),
+ 'C08': ('fuzz-style property testing in-process (catch_unwind, overflow checks, PEG call-budget meter, per-call watchdog) over generated valid / mutated / arbitrary inputs and extreme integers, plus scaling probes in isolated child processes; known findings K6/K7 attributed by input class + failure kind',
+         'Every generated input runs through all seven public entry points; a panic, an abort, a PEG call budget overrun, a call that does not return within 20 s, disagreement between entry points about Ok/Err, or an Err from evaluating a successfully parsed query is a violation. Stack exhaustion and parse-work blow-up are probed in child processes at sizes 8..65536. Exploration only; absence of hangs cannot be established by this technique and is approximated by the budgets stated in the evidence.',
+         'Trusted: pest::set_call_limit as a deterministic parse-work meter; 8 MiB stack as the reference environment for the probes; bulk inputs have nesting <= 40.', 'DESIGN.md section 4 C08'),
 }
 NOT_YET = 'check under construction in this session (designed in DESIGN.md section 4); not yet registered'
 
